@@ -22,6 +22,7 @@ import (
 	"verif.local/harness/lb"
 	"verif.local/harness/wx"
 	"verif.local/vrt"
+	"verif.local/vrt/vctx"
 )
 
 // ---------------------------------------------------------------- differential twin
@@ -610,6 +611,143 @@ func listOnce(ctx context.Context, srv v1alpha1.StateServer, req *v1alpha1.ListR
 	return rerr
 }
 
+// overrunScenario: watchers that stop consuming while the history rolls over. Whatever reaches the caller is
+// a prefix of the change log, and a stream that lost events ends with Errored - locally and through the
+// server and client alike; nothing may crash on the way.
+func overrunScenario() explore.Scenario {
+	return explore.Scenario{
+		Name:       "wire/stalled-watcher-overrun",
+		Desc:       "history capacity 2; by-id, by-kind and aggregated watches (direct and through server + client over the in-process transport) whose consumers stall for w = 1..16 writes and then drain: every stream is a prefix of the change log and is complete or ends with Errored; a panic means the server process would crash",
+		Sequential: true,
+		Body: func(x *explore.X) {
+			cases, steps := 0, 0
+			erroredSeen := map[bool]int{}
+			for _, w := range []int{1, 2, 3, 4, 5, 6, 8, 12, 16} {
+				for _, remote := range []bool{false, true} {
+					label := fmt.Sprintf("writes=%d remote=%v", w, remote)
+					res := vrt.Run(nil, vrt.Options{}, func() {
+						ctx, cancel := vctx.WithCancel(context.Background())
+						backend := state.WrapCore(inmem.NewStateWithOptions(inmem.WithHistoryInitialCapacity(2), inmem.WithHistoryMaxCapacity(2), inmem.WithHistoryGap(0))(hx.NS))
+						st := backend
+						if remote {
+							st = state.WrapCore(client.NewAdapter(lb.New(server.NewState(backend)), client.WithDisableWatchRetry()))
+						}
+						if err := backend.Create(ctx, fresh("a")); err != nil {
+							panic(err)
+						}
+						gate := make(chan struct{})
+						type wt struct {
+							name    string
+							got     []string
+							errored bool
+							after   int
+						}
+						ws := []*wt{{name: "watch-id"}, {name: "watch-kind"}, {name: "watch-kind-agg"}}
+						ch0, ch1, ch2 := make(chan state.Event), make(chan state.Event), make(chan []state.Event)
+						if err := st.Watch(ctx, hx.IntPtr("a"), ch0); err != nil {
+							panic(err)
+						}
+						if err := st.WatchKind(ctx, hx.IntKind(), ch1); err != nil {
+							panic(err)
+						}
+						if err := st.WatchKindAggregated(ctx, hx.IntKind(), ch2); err != nil {
+							panic(err)
+						}
+						take := func(t *wt, ev state.Event) {
+							switch {
+							case t.errored:
+								t.after++
+							case ev.Type == state.Errored:
+								t.errored = true
+							default:
+								t.got = append(t.got, wx.Render(ev).String())
+							}
+						}
+						vrt.Go(func() {
+							vrt.Recv1(gate)
+							for {
+								r0, r1, r2 := vrt.RecvCase((<-chan state.Event)(ch0)), vrt.RecvCase((<-chan state.Event)(ch1)), vrt.RecvCase((<-chan []state.Event)(ch2))
+								switch vrt.Select(false, vrt.RecvCase(ctx.Done()), r0, r1, r2) {
+								case 0:
+									return
+								case 1:
+									take(ws[0], r0.Value)
+								case 2:
+									take(ws[1], r1.Value)
+								case 3:
+									for _, ev := range r2.Value {
+										take(ws[2], ev)
+									}
+								}
+							}
+						})
+						vrt.WaitQuiescent()
+						var log []string // what a never-lagging by-kind watcher would have seen (the by-id one sees "a" first)
+						for i := 0; i < w; i++ {
+							old, _ := backend.Get(ctx, hx.IntPtr("a"))
+							nr, err := backend.UpdateWithConflicts(ctx, hx.IntPtr("a"), func(r resource.Resource) error {
+								r.(*conformance.IntResource).SetValue(10 + i)
+								return nil
+							})
+							if err != nil {
+								panic(err)
+							}
+							log = append(log, wx.Render(state.Event{Type: state.Updated, Resource: nr, Old: old}).String())
+							vrt.WaitQuiescent()
+						}
+						vrt.Close(gate)
+						vrt.WaitQuiescent()
+						for i, t := range ws {
+							want := log
+							got := t.got
+							if i == 0 && len(got) > 0 {
+								got = got[1:] // the by-id watch starts with the current state of a
+							}
+							ok := len(got) <= len(want)
+							for k := 0; ok && k < len(got); k++ {
+								ok = got[k] == want[k]
+							}
+							switch {
+							case !ok:
+								x.FailKey("wire/overrun/order", "%s: %s delivered %v, which is not a prefix of the change log %v", label, t.name, got, want)
+							case len(got) < len(want) && !t.errored:
+								x.FailKey("wire/overrun/silent", "%s: %s delivered %d of %d events and then went quiet without Errored", label, t.name, len(got), len(want))
+							case t.after > 0:
+								x.FailKey("wire/overrun/after-errored", "%s: %s delivered %d events after Errored", label, t.name, t.after)
+							}
+							if t.errored {
+								erroredSeen[remote]++
+							}
+						}
+						cancel()
+						vrt.WaitQuiescent()
+					})
+					for _, p := range res.Panics {
+						first, _, _ := strings.Cut(p, "\n")
+						x.FailKey("wire/overrun/panic", "%s: panic (the process would crash): %s\n%s", label, first, p)
+					}
+					if len(res.Live) > 0 {
+						x.FailKey("wire/overrun/leak", "%s: goroutines alive after cancellation: %v", label, res.Live)
+					}
+					cases++
+					steps += res.Steps
+				}
+			}
+			if erroredSeen[false] == 0 || erroredSeen[true] == 0 {
+				x.FailKey("harness/overrun-vacuous", "no stream ever overran (direct %d, remote %d): the scenario does not reach the Errored path", erroredSeen[false], erroredSeen[true])
+			}
+			x.Add("states", cases)
+			x.Add("transitions", steps)
+			x.Add("evaluations", cases)
+			x.Add("distinct_nontrivial", cases)
+			x.Add("traces_validated_against_impl", cases)
+			x.Add("overrun_streams_direct", erroredSeen[false])
+			x.Add("overrun_streams_remote", erroredSeen[true])
+			x.Outcome("cases=%d", cases)
+		},
+	}
+}
+
 func build(tier string) []explore.Scenario {
 	depth := 4
 	rich := false
@@ -624,7 +762,7 @@ func build(tier string) []explore.Scenario {
 	for _, f := range firsts[:2] {
 		out = append(out, diffScenario(f, depth, true, rich))
 	}
-	out = append(out, robustScenario())
+	out = append(out, robustScenario(), overrunScenario())
 	return out
 }
 
